@@ -283,8 +283,16 @@ def _run_mapping(config, tmp_dir, tmp_result_dir, log):
 
     # ========= query marker cache =========
 
+    # if no scratch directory was given, keep the marker cache in the
+    # result buffer directory (which is removed when the run ends)
+    # rather than leaving it behind in the system's temp directory
+    if tmp_dir is not None:
+        query_marker_dir = tmp_dir
+    else:
+        query_marker_dir = tmp_result_dir
+
     query_marker_tmp = pathlib.Path(
-        mkstemp_clean(dir=tmp_dir,
+        mkstemp_clean(dir=query_marker_dir,
                       prefix='query_marker_',
                       suffix='.h5'))
 
